@@ -61,7 +61,8 @@ func cleanupShm() {
 
 type tierCfg struct {
 	Depth    int
-	CoreDepth int // histories of this length over the core alphabet only (0: none)
+	CoreDepth int // histories up to this length over the core alphabet only (0: none)
+	Core      map[string]bool
 	MaxBits  int
 	Masks    []int
 	HdrMasks []int
@@ -78,15 +79,19 @@ func allMasks() []int {
 
 func cfgFor(tier string) tierCfg {
 	if tier == "thorough" {
-		return tierCfg{Depth: 5, MaxBits: 12,
+		return tierCfg{Depth: 4, CoreDepth: 5, Core: coreThorough, MaxBits: 12,
 			Masks:    []int{0x01, 0x02, 0x04, 0x08, 0x10, 0x20, 0x40, 0x80, 0xFF, 0x55, 0x03},
 			HdrMasks: allMasks(), Budget: 13 * time.Minute}
 	}
-	return tierCfg{Depth: 3, CoreDepth: 5, MaxBits: 10, Masks: []int{0x01, 0x80, 0xFF}, Budget: 75 * time.Second}
+	return tierCfg{Depth: 3, CoreDepth: 4, Core: coreShapes, MaxBits: 10, Masks: []int{0x01, 0x80, 0xFF}, Budget: 80 * time.Second}
 }
 
 // core alphabet: one representative per kind of operation (quick tier, one level deeper)
 var coreShapes = map[string]bool{"a1": true, "a789": true, "a513": true, "a1100z": true, "hsC": true, "ow": true, "snap": true, "reopen": true}
+
+// thorough tier, depth 5: 12 of the 15 shapes (a0, a511 and the non-zero a1100 are left to depth <= 4)
+var coreThorough = map[string]bool{"a1": true, "a789": true, "a100ns": true, "a480": true, "a512": true, "a513": true, "a1100z": true,
+	"hsC": true, "hsT": true, "ow": true, "snap": true, "reopen": true}
 
 // enumerate all applicable histories of exactly length d (the model decides applicability).
 func enumHistories(d int) [][]int { return enumHistoriesOver(d, nil) }
@@ -100,7 +105,7 @@ func enumHistoriesOver(d int, only map[string]bool) [][]int {
 			return
 		}
 		for si := range shapes {
-			if !m.applicable(&shapes[si]) || (only != nil && !only[shapes[si].Name]) {
+			if shapes[si].LongOnly || !m.applicable(&shapes[si]) || (only != nil && !only[shapes[si].Name]) {
 				continue
 			}
 			c := m.clone()
@@ -146,8 +151,11 @@ func run(prop string) int {
 		tier = "quick"
 	}
 	cfg := cfgFor(tier)
-	if d, err := strconv.Atoi(os.Getenv("WALMC_DEPTH")); err == nil && d > 0 {
+	if d, err := strconv.Atoi(os.Getenv("WALMC_DEPTH")); err == nil && d >= 0 {
 		cfg.Depth = d
+	}
+	if d, err := strconv.Atoi(os.Getenv("WALMC_COREDEPTH")); err == nil && d >= 0 {
+		cfg.CoreDepth = d
 	}
 	rep := ev.NewReport(prop, "fault_enumeration")
 	start := time.Now()
@@ -210,6 +218,9 @@ func run(prop string) int {
 			a.errs = append(a.errs, "bad result: "+err.Error())
 			return nil
 		}
+		if r.Ms > 3000 && os.Getenv("WALMC_TRACE") != "" {
+			fmt.Fprintf(os.Stderr, "trace: %d ms at +%.1fs: %s %s op %d file %s [%d,%d) images %d\n", r.Ms, time.Since(start).Seconds(), t.Kind, histLabel(&t), t.FromOp, t.File, t.From, t.To, r.Images)
+		}
 		if t.Kind == "corrupt" && t.File == "" && r.Err == "" && !r.Skipped {
 			// extent probe -> corruption tasks in chunks
 			if t.Long != "" {
@@ -264,7 +275,7 @@ func run(prop string) int {
 	coreN := 0
 	if cfg.CoreDepth > cfg.Depth {
 		for d := cfg.Depth + 1; d <= cfg.CoreDepth; d++ {
-			hs := enumHistoriesOver(d, coreShapes)
+			hs := enumHistoriesOver(d, cfg.Core)
 			coreN += len(hs)
 			a.byDepth[100+d] = len(hs)
 			for _, h := range hs {
@@ -348,7 +359,7 @@ func run(prop string) int {
 	cov := map[string]interface{}{
 		"evaluations":         a.res.Evals,
 		"distinct_nontrivial": a.res.Mixed + a.res.HitWritten,
-		"rule": "histories = every applicable sequence of length <= depth over the 15 operation shapes (seg 2 KiB; quick: one level deeper over an 8-shape core alphabet, keys 100+d in histories_by_depth) + hand-shaped long histories (2 and 8 KiB segments), run on the real wal/snap code; " +
+		"rule": "histories = every applicable sequence of length <= depth over the 15 operation shapes (seg 2 KiB; up to core_alphabet_depth over the core alphabet, keys 100+d in histories_by_depth) + hand-shaped long histories (2 and 8 KiB segments), run on the real wal/snap code; " +
 			"crash images = at every Fsync/Fdatasync callback and API return, every per-sector choice between the content durable at the last completed sync of the file and the contents observed since (x namespace before/after, x size-follows-data / zero-filled), de-duplicated by content hash per history; " +
 			"corruption = every byte offset of every segment (written area + 64) and snapshot file of the long histories' final image x masks; one evaluation = one run of a real reader (OpenForRead, Verify, ValidSnapshotEntries, Open+ReadAll[+Repair], Load, LoadNewestAvailable, reopen after append). " +
 			"non-trivial = distinct crash images that differ from both the all-old and the all-new neighbour image (torn images) + corruption cases whose flipped byte lies in the written area",
@@ -360,6 +371,8 @@ func run(prop string) int {
 		"history_depth_completed":    depthDone,
 		"core_alphabet_histories":    coreN,
 		"core_alphabet_depth":        cfg.CoreDepth,
+		"core_alphabet":              coreNames(cfg.Core),
+		"alphabet":                   alphabetNames(),
 		"inapplicable_histories":     a.inapplic,
 		"long_histories":             len(longHists),
 		"long_history_segment_cuts":  longCuts,
@@ -431,6 +444,25 @@ func spread(all []string) []string {
 		return out
 	}
 	return append(pick(crash, 9), pick(corr, 6)...)
+}
+
+func coreNames(m map[string]bool) []string {
+	var out []string
+	for k := range m {
+		out = append(out, k)
+	}
+	sort.Strings(out)
+	return out
+}
+
+func alphabetNames() []string {
+	var out []string
+	for _, s := range shapes {
+		if !s.LongOnly {
+			out = append(out, s.Name)
+		}
+	}
+	return out
 }
 
 func intMap(m map[int]int) map[string]int {
